@@ -222,6 +222,37 @@ func Fixed() []*Grammar {
 			}})
 	}
 
+	// manyprods: more than 255 productions, more than 255 terminals, more than 512
+	// states, and one alternative of 42 symbols (size limits of table entries)
+	{
+		var items []*Alt
+		for i := 0; i < 258; i++ {
+			kw := fmt.Sprintf("k%03d", i)
+			switch i % 3 {
+			case 0:
+				items = append(items, Al(Call(T(1)), `"`+kw+`"`, "id"))
+			case 1:
+				items = append(items, Al(Call(T(0), T(1)), `"`+kw+`"`, "id"))
+			default:
+				items = append(items, Al(Call(A(1), T(2)), `"`+kw+`"`, "id", "id"))
+			}
+		}
+		wide := []string{`"wide"`}
+		for i := 0; i < 40; i++ {
+			wide = append(wide, "id")
+		}
+		wide = append(wide, `";"`)
+		items = append(items, Al(Call(A(1), T(17), A(39), T(40), A(16), A(32), A(33)), wide...))
+		add(&Grammar{ID: "manyprods", Heavy: true, Big: true, Seps: wsSeps,
+			Lex: append(letters(),
+				LexDef{Kind: LexToken, Name: "id", Pattern: `('x' | 'y' | 'z') {_letter | _digit}`, Samples: []string{"x", "yy", "z9q", "xK"}},
+				ws()),
+			Prods: []*Prod{
+				P("Items", Al(Call(A(0)), "Item"), Al(Call(A(0), A(1)), "Items", "Item")),
+				{Head: "Item", Alts: items},
+			}})
+	}
+
 	// longalt: a 12-symbol alternative ($10, $11 next to $1)
 	add(&Grammar{ID: "longalt", Seps: wsSeps,
 		Lex: append(letters(),
